@@ -477,6 +477,8 @@ class EndpointResponseHandlerGenerator:
                                 deserialization_code = self._get_cattrs_deserialization_code(response_type, data_expr)
                                 writer.write_line(f"return {deserialization_code}")
                                 self._register_imports_for_type(response_type, context)
+                            elif self._raw_body_expression(resp_ir, response_type) is not None:
+                                writer.write_line(f"return {self._raw_body_expression(resp_ir, response_type)}")
                             else:
                                 context.add_import("typing", "cast")
                                 writer.write_line(f"return cast({response_type}, {data_expr})")
@@ -598,9 +600,26 @@ class EndpointResponseHandlerGenerator:
             deserialization_code = self._get_cattrs_deserialization_code(strategy.return_type, data_expr)
             writer.write_line(f"return {deserialization_code}")
             self._register_imports_for_type(strategy.return_type, context)
+        elif self._raw_body_expression(strategy.response_ir, strategy.return_type) is not None:
+            writer.write_line(f"return {self._raw_body_expression(strategy.response_ir, strategy.return_type)}")
         else:
             context.add_import("typing", "cast")
             writer.write_line(f"return cast({strategy.return_type}, {data_expr})")
+
+    @staticmethod
+    def _raw_body_expression(response_ir: IRResponse | None, python_type: str) -> str | None:
+        """
+        Expression for a body that is not JSON: a `str` declared with a non-JSON media type (text/plain, text/csv, ...)
+        is the response text, `bytes` declared with a non-JSON media type is the raw content. None when the body is JSON.
+        """
+        media_types = list(response_ir.content) if response_ir is not None and response_ir.content else []
+        if not media_types or any("json" in media_type.lower() for media_type in media_types):
+            return None
+        if python_type == "str":
+            return "response.text"
+        if python_type == "bytes":
+            return "response.content"
+        return None
 
     def _get_response_schema(self, response_ir: IRResponse) -> IRSchema | None:
         """Extract the schema from a response IR."""
